@@ -32,6 +32,17 @@ let enc_res = function
 let dec_res = function
   | None -> "fail"
   | Some (data, rest) -> Printf.sprintf "ok %s %d" (flat data) (List.length rest)
+let rec pairs = function
+  | a :: b :: r -> (a, b) :: pairs r
+  | [] -> []
+  | _ -> failwith "pairs"
+let flat2 ps = if ps = [] then "-" else String.concat "," (List.map (fun (a, b) -> string_of_z a ^ "," ^ string_of_z b) ps)
+let enc_res2 = function
+  | None -> "fail"
+  | Some (corr, bs) -> Printf.sprintf "ok %s %s" (flat2 corr) (hex_of_bytes bs)
+let dec_res2 = function
+  | None -> "fail"
+  | Some (data, rest) -> Printf.sprintf "ok %s %d" (flat2 data) (List.length rest)
 let ver = z_of_int 514
 let () = run_driver (function
   | ["par"; nc; f; d2c; v2d; data] ->
@@ -56,5 +67,11 @@ let () = run_driver (function
     enc_res (tc_encode md pos data (tc_choice md pos data (bits pol)))
   | ["dtc"; f; d2c; v2d; pos; corr; h] ->
     dec_res (tc_decode ver (mesh f d2c v2d) (v3s (zs pos)) (rows 2 (zs corr)) (bytes_of_hex h))
+  | ["gn"; q; f; d2c; v2d; pos; data; pol] ->
+    let fl = Array.of_list (bits pol) in
+    enc_res2 (gn_encode (z_of_string q) (mesh f d2c v2d) (v3s (zs pos)) (pairs (zs data))
+                (fun i -> let i = int_of_nat i in i < Array.length fl && fl.(i)))
+  | ["dgn"; f; d2c; v2d; pos; corr; h] ->
+    dec_res2 (gn_decode ver (mesh f d2c v2d) (v3s (zs pos)) (pairs (zs corr)) (bytes_of_hex h))
   | k :: _ -> "UNKNOWN-KIND " ^ k
   | [] -> "EMPTY")
